@@ -10,7 +10,7 @@ static FR word_int(int32_t v) { FR x; x.state = State::WORD_VALID; x.num = v; x.
 extern "C" void h_fdiv_q_word() {
     int32_t n = nondet_i32(), d = nondet_i32();
     VASSUME(d != 0);
-    VASSUME(n != INT32_MIN);           // that case leaves the word path (GMP), covered by the scaled C15 harness
+    VASSUME(n != INT_MIN);           // that case leaves the word path (GMP), covered by the scaled C15 harness
     FR N = word_int(n), D = word_int(d);
     FR q = fastrat_fdiv_q(N, D);
     VASSERT(q.wordPartValid() && q.den == 1, "floor quotient is a word integer");
@@ -23,7 +23,7 @@ extern "C" void h_fdiv_q_word() {
 extern "C" void h_mod_word() {
     int32_t n = nondet_i32(), d = nondet_i32();
     VASSUME(d != 0);
-    VASSUME(!(n == INT32_MIN && d == -1));   // INT_MIN % -1: reported separately by h_mod_word_ub
+    VASSUME(!(n == INT_MIN && d == -1));   // INT_MIN % -1: reported separately by h_mod_word_ub
     FR N = word_int(n), D = word_int(d);
     FR r = N % D;
     VASSERT(r.wordPartValid() && r.den == 1, "remainder is a word integer");
@@ -44,7 +44,7 @@ extern "C" void h_ceil_floor_word() {
     VASSERT(c.wordPartValid() && c.den == 1, "ceil is a word integer");
     int64_t C = c.num;
     VASSERT(C * (int64_t)d >= n && (C - 1) * (int64_t)d < n, "ceil(n/d): smallest integer >= n/d");
-    if (d != 1 && !(C == INT32_MIN)) {
+    if (d != 1 && !(C == INT_MIN)) {
         FR f = x.floor();
         VASSERT(f.wordPartValid() && f.den == 1, "floor is a word integer");
         int64_t F = f.num;
